@@ -19,6 +19,7 @@ type Stats struct {
 	Exhaustive   bool // the whole tree within the bound was enumerated
 	Capped       bool
 	RacySelects  int64 // executions that passed a select with more than one ready case
+	Picks        int64 // selects with several ready cases resolved as explicit choice points
 	RacyDiverged int64 // replays that took another branch at such a select (explored as executions of their own)
 }
 
@@ -52,6 +53,7 @@ func (e *Explorer) Explore() *Stats {
 		if r.Diverged {
 			continue
 		}
+		st.Picks += int64(r.Picks)
 		if r.Racy > 0 {
 			st.RacySelects++
 		}
